@@ -377,16 +377,27 @@ static void replay_c02(int sub, long long p[8])
 /* ======================================================================= */
 int main(int argc, char** argv)
 {
-    const char* cs = NULL;
+    const char* cs = NULL; int plant = 0;
     for (int i = 1; i < argc; i++) {
         if (!strcmp(argv[i], "--suite")) g_suite = argv[++i];
         else if (!strcmp(argv[i], "--tier")) { i++; g_thorough = !strcmp(argv[i], "thorough"); g_lite = !strcmp(argv[i], "lite"); }
         else if (!strcmp(argv[i], "--off")) g_off = atoi(argv[++i]) & 7;
         else if (!strcmp(argv[i], "--slice")) sscanf(argv[++i], "%d/%d", &g_slice, &g_nslices);
         else if (!strcmp(argv[i], "--case")) cs = argv[++i];
+        else if (!strcmp(argv[i], "--plant")) plant = 1;
     }
     setvbuf(stdout, NULL, _IOFBF, 1 << 16);
     fault_install();
+    if (plant) {
+        /* planted-bug self-test: a deliberately wrong spec row (Can.pad shifted by one bit) must make the oracle fire */
+        int fmt = 0; for (int i = 0; i < g_nfmts; i++) if (!strcmp(g_fmts[i].name, "Can")) fmt = i;
+        RowField* rows = (RowField*)g_fmts[fmt].f;
+        rows[2].off += 1;
+        g_max_per_key = 0;
+        for (int path = 0; path < 2; path++) for (int bgi = 0; bgi < 4; bgi++) for (int k = 0; k < 8 * g_fmts[fmt].len; k++) { c01_case(0, fmt, 2, path, bgi, k, 0); c02_case(fmt, 2, path, bgi, k, 3); }
+        emit_counters("PLANT");
+        return 0;
+    }
     if (cs) {
         g_verbose = 1; g_replay = 1;
         char suite[8]; int sub; long long p[8] = {0};
